@@ -898,7 +898,8 @@ func (multi *MultiEpoch) processSlotTransactions(
 		return nil
 	} else {
 
-		const batchSize = 100
+		// every transaction of the included accounts in [startSlot, endSlot] is streamed: the gsfa query must not be truncated
+		const noLimit = math.MaxInt
 		buffer := newTxBuffer(uint64(startSlot), uint64(endSlot))
 		errChan := make(chan error, len(filter.AccountInclude))
 
@@ -928,7 +929,7 @@ func (multi *MultiEpoch) processSlotTransactions(
 				epochToTxns, err := gsfaReader.GetBeforeUntilSlot(
 					queryCtx,
 					pKey,
-					batchSize,
+					noLimit,
 					endSlot+1, //  Before (exclusive)
 					startSlot, // Until (inclusive)
 					func(epochNum uint64, oas linkedlog.OffsetAndSizeAndSlot) (*ipldbindcode.Transaction, error) {
